@@ -133,7 +133,8 @@ CHECKS = {
               "output of the quantized_bits / quantized_relu / quantized_po2 / quantized_relu_po2 models is a member of the qtools type reported for the quantizer. "
               "Kernel families include power-of-two kernels with max_value that is not a power of two and with max_value <= 1 (no exponent sign bit), activations include "
               "power-of-two and leaky ones; directed single-layer corner models. Four genuine defects repaired (two in analyze_accumulator, get_exp, po2_to_qbits)."
-              " The dense / convolution branch of generate_layer_data_type_map is REGENERATED on every run (tools/translate/layermapgen.py -> coq/gen/LayerMapGen.v: multiplier, kernel accumulator over prod(kernel.shape[:-1]) resp. prod(kernel.shape[:-2]) terms, bias adder exactly with a bias, output type = accumulator.output); Link/LayerMapLink.v proves the stored entry equal to layer_mul / layer_acc, and C18_code_preactivation_fits_stored_accumulator_* restate the fixed-point pre-activation theorems about it."),
+              " The dense / convolution branch of generate_layer_data_type_map is REGENERATED on every run (tools/translate/layermapgen.py -> coq/gen/LayerMapGen.v: multiplier, kernel accumulator over prod(kernel.shape[:-1]) resp. prod(kernel.shape[:-2]) terms, bias adder exactly with a bias, output type = accumulator.output); Link/LayerMapLink.v proves the stored entry equal to layer_mul / layer_acc, and C18_code_preactivation_fits_stored_accumulator_* restate the fixed-point pre-activation theorems about it."
+              " The per-channel bound of analyze_accumulator (tools/translate/estgen.py; C18_code_estimator_bounds_every_output: the code's (n1, n0) enclose every output over the input box) and the auto power-of-two adjustment (adjust_multiplier / adjust_accumulator_for_auto_po2; C18_source_fused_accumulator_is_the_model) are regenerated as well."),
         design_ref="DESIGN.md section 5 C18, section 10.4, 10.8, 10.10",
         note=(TB_COMMON + "qtools' graph builder needs four Keras-2 accessors that Keras 3 dropped (known finding); the harness supplies them as "
               "pure accessors and qtools runs unmodified. Po2 / binary / ternary kernels are covered by the operator theorems of C16/C17 and by "
@@ -162,7 +163,8 @@ CHECKS = {
               "the MAC / pooling formulas, linearity in the count, that the total adds exactly the four printed entries, that a placement other than DRAM / SRAM costs "
               "nothing and that the placement option is irrelevant at the model's inputs and outputs -- about the code as it is now. Every op_cost and every memory "
               "entry of every layer class (merge layers with n inputs of rank r varied independently, pooling, batch normalisation, branched real models) is judged by "
-              "evaluating the Coq model on the unit costs the implementation's own tables give."),
+              "evaluating the Coq model on the unit costs the implementation's own tables give."
+              " The key-selection rule of extract_energy_sum / extract_energy_profile is regenerated as well (tools/translate/extractgen.py; an empty class rule selects nothing, a class rule beats the default)."),
         design_ref="DESIGN.md section 5 C19, section 10, section 10.10",
         note=(TB_COMMON + "Energy polynomials and log2 are float64 functions of qenergy; entries are compared with an independent float64 "
               "recomputation (a test), sums exactly. QTools(model) runs under the four accessor shims described for C18."),
@@ -312,7 +314,8 @@ CHECKS = {
               "_adjust_limit (AutoQ/Limits.v): a short per-class limit list is padded role by role from the default (3- or 4-element, the recurrent entry skipped for "
               "non-recurrent classes), complete lists are untouched, the one-slice padding is refuted; every adjusted list of the runs is compared with an independent "
               "role-by-role reference and with the Coq pad_limit."
-              " ForgivingFactorBits._act_size is REGENERATED on every run (tools/translate/sizegen.py -> coq/gen/SizeGen.v) over layer kinds x descriptors of the activation object; Link/SizeLink.v: whenever the code returns a size it is the model's, quantizer objects are always sized (genuine defect repaired, fix 608f79a), fused plain activations count at the reference width."),
+              " ForgivingFactorBits._act_size is REGENERATED on every run (tools/translate/sizegen.py -> coq/gen/SizeGen.v) over layer kinds x descriptors of the activation object; Link/SizeLink.v: whenever the code returns a size it is the model's, quantizer objects are always sized (genuine defect repaired, fix 608f79a), fused plain activations count at the reference width."
+              " The role dispatch of _get_quantizer is regenerated too (tools/translate/rolegen.py; Link/RoleLink.v: equal to field_of_head for every role string; C20_code_role_slots)."),
         design_ref="DESIGN.md section 5 C20, section 10.4, 10.8, 10.10",
         note=(TB_COMMON + "The delta theorems use Coq's Reals: the standard library's real-number axioms (ClassicalDedekindReals.sig_forall_dec, "
               "sig_not_dec, FunctionalExtensionality.functional_extensionality_dep, Classical_Prop.classic) are the only assumptions, as Print "
